@@ -131,13 +131,17 @@ class SolutionTracks(Tracks):
             ndim=tracks.ndim,
             features=tracks.features,
         )
+        id_keys = [
+            soln_tracks.features.tracklet_key,
+            soln_tracks.features.lineage_key,
+        ]
         if force_recompute:
-            soln_tracks.enable_features(
-                [
-                    soln_tracks.features.tracklet_key,  # type: ignore[list-item]
-                    soln_tracks.features.lineage_key,  # type: ignore[list-item]
-                ]
-            )
+            soln_tracks.enable_features(id_keys)  # type: ignore[arg-type]
+        elif any(key not in soln_tracks.features for key in id_keys):
+            # The id features are not registered (e.g. a plain Tracks object without
+            # nodes, where there was nothing to inspect above): switch them on, keeping
+            # any ids that are already on the graph
+            soln_tracks.enable_features(id_keys, recompute=False)  # type: ignore[arg-type]
         return soln_tracks
 
     @property
